@@ -35,6 +35,10 @@ var FormatDateFunc = function.New(&function.Spec{
 
 		var buf bytes.Buffer
 		sc := bufio.NewScanner(strings.NewReader(formatStr))
+		if len(formatStr) >= bufio.MaxScanTokenSize {
+			// a single token (a quoted literal) can be as long as the whole format
+			sc.Buffer(nil, len(formatStr)+1)
+		}
 		sc.Split(splitDateFormat)
 		const esc = '\''
 		for sc.Scan() {
